@@ -76,54 +76,64 @@ Definition mk (f : fname) (item new : Z) (p : predfn) (s1 s2 : seqin) (st en : o
   (t : testarg) (cn : countarg) (fe : bool) : call :=
   mkCall f item new p s1 s2 st en false None None k t cn fe BAdd None 1 false TrT.
 
-(* (find 1 '(0 1 2) :test-not 'eql) => type-error, the language says 0 *)
+(* (find 1 '(0 1 2) :test-not 'eql) => 0 (repaired: was a type-error) *)
+(* (member 1 '(1 2) :test-not 'eql) => (2) (repaired: was a type-error; member has its own keyword loop) *)
+Definition w_member_test_not := mk FMember 1 0 P0 (SList [1;2]) SNil None None None (TTestNot TEql) CAbsent false.
 Definition w_test_not := mk FFind 1 0 P0 (SList [0;1;2]) SNil None None None (TTestNot TEql) CAbsent false.
-(* (substitute 9 1 '(1 2) :test-not 'eql) => (9 2): the keyword is ignored *)
+(* (substitute 9 1 '(1 2) :test-not 'eql) => (1 9) (repaired: was (9 2), the keyword was ignored) *)
 Definition w_subst_test_not := mk FSubstitute 1 9 P0 (SList [1;2]) SNil None None None (TTestNot TEql) CAbsent false.
-(* (set-difference '(1 2) '(2) :test-not 'eql) => (1) *)
+(* (set-difference '(1 2) '(2) :test-not 'eql) => (2) (repaired: was (1)) *)
 Definition w_setdiff_test_not := mk FSetDifference 0 0 P0 (SList [1;2]) (SList [2]) None None None (TTestNot TEql) CAbsent false.
-(* (remove 1 '(1 2 1) :count nil) => type-error *)
+(* (remove 1 '(1 2 1) :count nil) => (2) (repaired: was a type-error) *)
 Definition w_count_nil := mk FRemove 1 0 P0 (SList [1;2;1]) SNil None None None TDefault CNil false.
-(* (substitute 9 1 '(0 1 0 1) :count 1) => (0 1 0 1); :count 0 replaces; a negative count replaces all *)
+(* (substitute 9 1 '(0 1 0 1) :count 1) => (0 9 0 1); :count 0 and a negative count replace nothing
+   (repaired: were (0 1 0 1), (9 1), (9 9)) *)
 Definition w_subst_count := mk FSubstitute 1 9 P0 (SList [0;1;0;1]) SNil None None None TDefault (CNum 1) false.
 Definition w_subst_count0 := mk FSubstitute 1 9 P0 (SList [1;1]) SNil None None None TDefault (CNum 0) false.
 Definition w_subst_count_neg := mk FSubstitute 1 9 P0 (SList [1;1]) SNil None None None TDefault (CNum (-1)) false.
-(* (count #\d "d<e9>d") with a two-byte character: index out of range *)
+(* (count #\d "d<e9>d") with a two-byte character => 2 (repaired: was an index out of range) *)
 Definition w_count_utf8 := mk FCount 0 0 P0 (SStr [0;133;0]) SNil None None None TDefault CAbsent false.
-(* (assoc 1 nil) => type-error; (assoc 1 '((2 . 0)) :test '<) => nil *)
+(* (assoc 1 nil) => nil (repaired: was a type-error); (assoc 1 '((2 . 0)) :test '<) => (2 . 0) (repaired: was nil) *)
 Definition w_assoc_nil := mk FAssoc 1 0 P0 SNil SNil None None None TDefault CAbsent false.
 Definition w_assoc_order := mk FAssoc 1 0 P0 (SList [2]) (SList [0]) None None None (TTest TLt) CAbsent false.
-(* (search '(1 2) '(1 2 3) :from-end t) => nil; (search '() '(1 2 3) :start2 1) => 0 *)
+(* (search '(1 2) '(1 2 3) :from-end t) => 0 (repaired: was nil); (search '() '(1 2 3) :start2 1) => 1 (repaired: was 0) *)
 Definition w_search_from_end :=
   mkCall FSearch 0 0 P0 (SList [1;2]) (SList [1;2;3]) None None false None None None TDefault CAbsent true BAdd None 1 false TrNum.
 Definition w_search_empty :=
   mkCall FSearch 0 0 P0 (SList []) (SList [1;2;3]) None None false (Some 1%nat) None None TDefault CAbsent false BAdd None 1 false TrNum.
-(* (mismatch '(1 2 3 4) '(1 2 9 4) :from-end t) => 2; (mismatch '(1 2) '(1 2) :start1 2) => error *)
+(* (mismatch '(1 2 3 4) '(1 2 9 4) :from-end t) => 2; (mismatch '(1 2) '(1 2) :start1 2) => 2 (repaired: was an error) *)
 Definition w_mismatch_from_end :=
   mkCall FMismatch 0 0 P0 (SList [1;2;3;4]) (SList [1;2;9;4]) None None false None None None TDefault CAbsent true BAdd None 1 false TrNum.
 Definition w_mismatch_start :=
   mkCall FMismatch 0 0 P0 (SList [1;2]) (SList [1;2]) (Some 2%nat) None false None None None TDefault CAbsent false BAdd None 1 false TrNum.
-(* (replace (list 1 2 3) '(9 9) :end1 3) => error; (fill (list 1 2 3) 0 :end 3) => error *)
+(* (replace (list 1 2 3) '(9 9) :end1 3) => (9 9 3) (repaired: was an error); (fill (list 1 2 3) 0 :end 3) => error *)
 Definition w_replace_end :=
   mkCall FReplace 0 0 P0 (SList [1;2;3]) (SList [9;9]) None (Some 3%nat) false None None None TDefault CAbsent false BAdd None 1 false TrNum.
 Definition w_fill_end := mk FFill 0 0 P0 (SList [1;2;3]) SNil None (Some 3%nat) None TDefault CAbsent false.
-(* (subseq nil 0), (every (lambda (x) (eql 0 x)) nil), (subsetp nil '(1)): type-error *)
+(* (fill (list 1 2 3) 0 :start 3) => error *)
+Definition w_fill_start := mk FFill 0 0 P0 (SList [1;2;3]) SNil (Some 3%nat) None None TDefault CAbsent false.
+(* (subseq nil 0) => nil, (every (lambda (x) (eql 0 x)) nil) => t, (subsetp nil '(1)) => t (repaired: were type-errors) *)
 Definition w_subseq_nil := mk FSubseq 0 0 P0 SNil SNil (Some 0%nat) None None TDefault CAbsent false.
 Definition w_every_nil := mk FEvery 0 0 P0 SNil SNil None None None TDefault CAbsent false.
 Definition w_subsetp_nil := mk FSubsetp 0 0 P0 SNil (SList [1]) None None None TDefault CAbsent false.
-(* (reduce '+ nil), (map 'list '1+ nil), (merge 'list nil '(1) '<): Go run-time panic *)
-Definition w_reduce_nil := mk FReduce 0 0 P0 SNil SNil None None None TDefault CAbsent false.
+(* (reduce '+ nil :initial-value 5) => 5, (map 'list '1+ nil) => nil, (merge 'list nil '(1) '<) => (1)
+   (repaired: were failed Go type assertions) *)
+Definition w_reduce_nil :=
+  mkCall FReduce 0 0 P0 SNil SNil None None false None None None TDefault CAbsent false BAdd (Some 5) 1 false TrT.
 Definition w_map_nil := mk FMap 0 0 P0 SNil SNil None None (Some KSucc) TDefault CAbsent false.
 Definition w_merge_nil := mk FMerge 0 0 P0 SNil (SList [1]) None None None (TTest TLt) CAbsent false.
-(* (merge 'list '(-1) '(1) '< :key 'abs) => (1 -1) *)
+(* (merge 'list '(-1) '(1) '< :key 'abs) => (-1 1) (repaired: was (1 -1)) *)
 Definition w_merge_tie := mk FMerge 0 0 P0 (SList [-1]) (SList [1]) None None (Some KAbs) (TTest TLt) CAbsent false.
-(* (some (lambda (x) (if (< 1 x) x nil)) '(1 2 3)) => t *)
+(* (some (lambda (x) (if (< 1 x) x nil)) '(1 2 3)) => 2 (repaired: was t) *)
 Definition w_some_value :=
   mkCall FSome 0 0 (PT TLt 1) (SList [1;2;3]) SNil None None false None None None TDefault CAbsent false BAdd None 1 true TrNum.
-(* (reduce '+ '()) => nil; (reduce '+ '(1 2 3) :start 3) => type-error *)
+(* (reduce '+ '()) => nil; (reduce '+ '(1 2 3) :start 3) => nil (was a type-error; the language says 0);
+   (reduce '+ '(1 2 3) :start 3 :initial-value 7) => 7 (repaired: was a type-error) *)
 Definition w_reduce_empty := mk FReduce 0 0 P0 (SList []) SNil None None None TDefault CAbsent false.
 Definition w_reduce_start := mk FReduce 0 0 P0 (SList [1;2;3]) SNil (Some 3%nat) None None TDefault CAbsent false.
-(* (remove-duplicates '(1 2 1) :test '/=) => (1 1); (remove-duplicates '(1 2 3) :test '< :from-end t) => (1 2 3) *)
+Definition w_reduce_start_init :=
+  mkCall FReduce 0 0 P0 (SList [1;2;3]) SNil (Some 3%nat) None false None None None TDefault CAbsent false BAdd (Some 7) 1 false TrT.
+(* (remove-duplicates '(1 2 1) :test '/=) => (1) (repaired: was (1 1)); (remove-duplicates '(1 2 3) :test '< :from-end t) => (1 2 3) *)
 Definition w_dups_ne := mk FRemoveDuplicates 0 0 P0 (SList [1;2;1]) SNil None None None (TTest TNe) CAbsent false.
 Definition w_dups_from_end := mk FRemoveDuplicates 0 0 P0 (SList [1;2;3]) SNil None None None (TTest TLt) CAbsent true.
 
@@ -132,20 +142,45 @@ Definition w_remove_if_not := mk FRemoveIfNot 0 0 P0 (SList [0;1;2]) SNil None N
 Definition w_find_if_not := mk FFindIfNot 0 0 P0 (SVec [0;1;2]) SNil None None None TDefault CAbsent false.
 
 Definition refutation_witnesses : list call :=
-  [w_remove_if_not; w_find_if_not; w_test_not; w_subst_test_not; w_setdiff_test_not; w_count_nil; w_subst_count; w_subst_count0; w_subst_count_neg;
-   w_count_utf8; w_assoc_nil; w_assoc_order; w_search_from_end; w_search_empty; w_mismatch_from_end; w_mismatch_start;
-   w_replace_end; w_fill_end; w_subseq_nil; w_every_nil; w_subsetp_nil; w_reduce_nil; w_map_nil; w_merge_nil;
-   w_merge_tie; w_some_value; w_reduce_empty; w_reduce_start; w_dups_ne; w_dups_from_end].
+  [w_remove_if_not; w_find_if_not;
+   w_mismatch_from_end;
+   w_fill_end; w_fill_start;
+   w_reduce_empty; w_reduce_start; w_dups_from_end].
+
+(* set-difference is a relation in S: the repaired witness is judged by the checker *)
+Lemma setdiff_test_not_repaired :
+  in_domain w_setdiff_test_not = true /\ m_call w_setdiff_test_not = Some (RSeq [2]) /\ spec_ok w_setdiff_test_not (RSeq [2]) = true.
+Proof. vm_compute. repeat split; reflexivity. Qed.
 
 Lemma all_refuted : forallb refutes refutation_witnesses = true.
 Proof. vm_compute. reflexivity. Qed.
 
 Lemma refuted_values :
-  map m_call [w_test_not; w_subst_count; w_count_utf8; w_assoc_order; w_search_from_end; w_mismatch_from_end; w_merge_tie; w_some_value; w_reduce_empty] =
-  [Some (RErr EType); Some (RSeq [0;1;0;1]); Some (RErr EFault); Some RNil; Some RNil; Some (RInt 2); Some (RSeq [1;-1]); Some RTrue; Some RNil] /\
-  map s_call [w_test_not; w_subst_count; w_count_utf8; w_assoc_order; w_search_from_end; w_mismatch_from_end; w_merge_tie; w_some_value; w_reduce_empty] =
-  [Some (RElt 0); Some (RSeq [0;9;0;1]); Some (RInt 2); Some (RSeq [2;0]); Some (RInt 0); Some (RInt 3); Some (RSeq [-1;1]); Some (RElt 2); Some (RElt 0)].
+  map m_call [w_mismatch_from_end; w_reduce_empty] =
+  [Some (RInt 2); Some RNil] /\
+  map s_call [w_mismatch_from_end; w_reduce_empty] =
+  [Some (RInt 3); Some (RElt 0)].
 Proof. vm_compute. split; reflexivity. Qed.
+
+(* ---- repaired defects: the witnesses of the findings repaired in slip (repo_fixes/C14-n.patch) are now inside
+   the guard, and the model of the repaired code returns the value the language defines ------------------ *)
+Definition repaired_witnesses : list (call * res) :=
+  [ (w_count_utf8, RInt 2); (w_count_nil, RSeq [2]); (w_assoc_nil, RNil);
+    (w_subseq_nil, RSeq []); (w_every_nil, RTrue); (w_subsetp_nil, RTrue); (w_reduce_nil, RElt 5);
+    (w_map_nil, RSeq []); (w_merge_nil, RSeq [1]); (w_search_from_end, RInt 0); (w_search_empty, RInt 1);
+    (w_mismatch_start, RInt 2); (w_replace_end, RSeq [9;9;3]);
+    (w_reduce_start_init, RElt 7); (w_some_value, RElt 2); (w_assoc_order, RSeq [2;0]);
+    (w_merge_tie, RSeq [-1;1]); (w_subst_count, RSeq [0;9;0;1]); (w_subst_count0, RSeq [1;1]);
+    (w_subst_count_neg, RSeq [1;1]); (w_dups_ne, RSeq [1]); (w_test_not, RElt 0);
+    (w_subst_test_not, RSeq [1;9]); (w_member_test_not, RSeq [2]) ].
+Definition repaired_ok (cr : call * res) : bool :=
+  in_domain (fst cr) &&
+  match m_call (fst cr), s_call (fst cr) with
+  | Some m, Some s => res_eqb m (snd cr) && res_eqb s (snd cr)
+  | _, _ => false
+  end.
+Lemma repaired_all : forallb repaired_ok repaired_witnesses = true.
+Proof. vm_compute. reflexivity. Qed.
 
 (* ---- non-vacuity: calls inside the guard with every keyword in play ------------------------------------------- *)
 Definition ex_calls : list call :=
@@ -226,6 +261,38 @@ Proof.
   split; [now apply H|]. apply H; [exact Dg|]. now rewrite (s_call_form g f).
 Qed.
 
+(* ---- after the repairs the guard of the item / -if / two-sequence families is nothing but "bounds in range,
+   characters representable, only keywords the function has" ------------------------------------------------ *)
+Definition bounds_only (f : fname) : bool :=
+  match f with
+  | FFind | FFindIf | FPosition | FPositionIf | FCount | FCountIf
+  | FRemove | FRemoveIf | FDelete | FDeleteIf
+  | FSubstitute | FSubstituteIf | FNsubstitute | FNsubstituteIf
+  | FSearch | FSubseq | FReplace | FReverse | FNreverse | FMap | FConcatenate => true
+  | _ => false
+  end.
+Lemma guard_is_bounds : forall c, bounds_only (c_fn c) = true ->
+  in_domain c = bounds_ok c && seq_ok (c_seq c) && seq_ok (c_seq2 c) && keywords_ok c &&
+                match c_fn c with FSearch | FReplace => bounds2_ok c | _ => true end.
+Proof. intros c H. unfold in_domain. destruct (c_fn c); try discriminate H; reflexivity. Qed.
+(* so for these functions: every in-range call with any combination of :start :end :key :test :test-not
+   :count :from-end (:start2 :end2) returns exactly the value of the specification *)
+Theorem in_range_calls_meet_spec : forall c, bounds_only (c_fn c) = true ->
+  bounds_ok c = true -> seq_ok (c_seq c) = true -> seq_ok (c_seq2 c) = true -> keywords_ok c = true ->
+  match c_fn c with FSearch | FReplace => bounds2_ok c | _ => true end = true ->
+  m_call c = s_call c /\ exists r, s_call c = Some r.
+Proof.
+  intros c H B S1 S2 K B2.
+  assert (in_domain c = true) as Hd by (rewrite guard_is_bounds by exact H; now rewrite B, S1, S2, K, B2).
+  assert (has_model (c_fn c) = true) as Hm by (destruct (c_fn c); try discriminate H; reflexivity).
+  destruct (model_meets_spec c Hm Hd) as [r [Hr Ho]].
+  assert (exists s, s_call c = Some s) as [s Hs].
+  { unfold s_call. destruct (c_fn c); try discriminate H; eauto. }
+  split; [|eauto]. rewrite Hr, Hs. f_equal.
+  unfold spec_ok in Ho. rewrite Hs in Ho.
+  destruct (c_fn c); try discriminate H; symmetry; now apply res_eqb_eq.
+Qed.
+
 (* ---- statements packaged for Properties.v ------------------------------------------------------------------- *)
 Lemma stable_sort_exists_unique : forall lt k, swo lt -> forall xs,
   stable_spec lt k xs (s_isort lt k xs) /\ forall ys, stable_spec lt k xs ys -> ys = s_isort lt k xs.
@@ -233,37 +300,17 @@ Proof. intros lt k W xs. split; [exact (isort_stable lt k W xs)|exact (stable_un
 Lemma reverse_loops : forall l, m_reverse_list l = rev l /\ go_reverse l = rev l.
 Proof. intros l. split; [exact (m_reverse_is_rev l)|exact (go_reverse_is_rev l)]. Qed.
 
-Lemma test_not_refuted : refutes w_test_not = true /\ refutes w_subst_test_not = true /\ refutes w_setdiff_test_not = true.
-Proof. vm_compute. repeat split; reflexivity. Qed.
 Lemma if_not_missing_refuted : refutes w_remove_if_not = true /\ refutes w_find_if_not = true /\
   m_call w_remove_if_not = Some (RErr EUndefined) /\ s_call w_remove_if_not = Some (RSeq [0]) /\ s_call w_find_if_not = Some (RElt 1).
 Proof. vm_compute. repeat split; reflexivity. Qed.
-Lemma count_nil_refuted : refutes w_count_nil = true.
+Lemma mismatch_refuted : refutes w_mismatch_from_end = true.
 Proof. vm_compute. reflexivity. Qed.
-Lemma substitute_count_refuted : refutes w_subst_count = true /\ refutes w_subst_count0 = true /\ refutes w_subst_count_neg = true.
-Proof. vm_compute. repeat split; reflexivity. Qed.
-Lemma count_utf8_refuted : refutes w_count_utf8 = true.
-Proof. vm_compute. reflexivity. Qed.
-Lemma assoc_refuted : refutes w_assoc_nil = true /\ refutes w_assoc_order = true.
+Lemma fill_end_refuted : refutes w_fill_end = true /\ refutes w_fill_start = true.
 Proof. vm_compute. split; reflexivity. Qed.
-Lemma search_refuted : refutes w_search_from_end = true /\ refutes w_search_empty = true.
-Proof. vm_compute. split; reflexivity. Qed.
-Lemma mismatch_refuted : refutes w_mismatch_from_end = true /\ refutes w_mismatch_start = true.
-Proof. vm_compute. split; reflexivity. Qed.
-Lemma replace_fill_end_refuted : refutes w_replace_end = true /\ refutes w_fill_end = true.
-Proof. vm_compute. split; reflexivity. Qed.
-Lemma nil_sequence_refuted :
-  refutes w_subseq_nil = true /\ refutes w_every_nil = true /\ refutes w_subsetp_nil = true /\
-  refutes w_reduce_nil = true /\ refutes w_map_nil = true /\ refutes w_merge_nil = true.
-Proof. vm_compute. repeat split; reflexivity. Qed.
-Lemma merge_tie_refuted : refutes w_merge_tie = true.
-Proof. vm_compute. reflexivity. Qed.
-Lemma some_value_refuted : refutes w_some_value = true.
-Proof. vm_compute. reflexivity. Qed.
 Lemma reduce_refuted : refutes w_reduce_empty = true /\ refutes w_reduce_start = true.
 Proof. vm_compute. split; reflexivity. Qed.
-Lemma remove_duplicates_refuted : refutes w_dups_ne = true /\ refutes w_dups_from_end = true.
-Proof. vm_compute. split; reflexivity. Qed.
+Lemma remove_duplicates_refuted : refutes w_dups_from_end = true.
+Proof. vm_compute. reflexivity. Qed.
 Lemma guard_nonvacuous : forallb in_domain ex_calls = true /\
   map m_call ex_calls =
   [ Some (RElt 1); Some (RInt 4); Some (RInt 3); Some (RSeq [1;0;2;1]); Some (RSeq [0;1;7;2]); Some (RSeq [1;-2]);
